@@ -368,6 +368,34 @@ Theorem objstm_lookup_total :
 Proof. exact objstm_lookup_total_lemma. Qed.
 Print Assumptions objstm_lookup_total.
 
+(* ownership of the decoded reader: every exit of getObjStm either hands the
+   open reader over (success) or has closed it or never opened it; no exit of
+   getFromObjStm leaves it open - for any /N, /First, offset table, any failure
+   of DecodeStream and of the scanner *)
+Theorem objstm_reader_ownership :
+  forall (derr : option cls) (n_o first_o : dval) (ints : list (Z * Z)) (tail_err : cls),
+    match get_objstm_own true derr n_o first_o ints tail_err with
+    | (Ok _, ROpen) => derr = None
+    | (Err _, RNone) => True
+    | (Err _, RClosed) => derr = None
+    | _ => False
+    end.
+Proof. exact objstm_reader_ownership_lemma. Qed.
+Print Assumptions objstm_reader_ownership.
+
+Theorem objstm_get_closes_reader :
+  forall (derr : option cls) (n_o first_o : dval) (ints : list (Z * Z)) (tail_err : cls) (number : Z),
+    snd (get_from_objstm_own true derr n_o first_o ints tail_err number) <> ROpen.
+Proof. exact objstm_get_closes_reader_lemma. Qed.
+Print Assumptions objstm_get_closes_reader.
+
+(* the code before F55 (no Close on the error paths of getObjStm): /N 1 and
+   data without an integer leave the reader open *)
+Theorem objstm_reader_leak_refuted :
+  get_from_objstm_own false None (DInt 1) (DInt 4) [] Malformed 3%Z = (Err Malformed, ROpen).
+Proof. exact objstm_reader_leak_refuted_lemma. Qed.
+Print Assumptions objstm_reader_leak_refuted.
+
 Example objstm_index_ok :
   objstm_find (DInt 2) (DInt 10) [(10, 2); (0, 4); (11, 7); (3, 9)]%Z Malformed 11%Z = Ok (FReadAt 13%Z).
 Proof. vm_compute. reflexivity. Qed.
